@@ -874,8 +874,10 @@ class TestNode(Runnable):
             # last worker should "close the door" for all workers that opened it and left
             for picked_worker in self.shared_involved_workers:
                 # TODO: provide swarm filtering not just here but universally wherever needed
+                # workers of other swarms matter too unless the setup is not shared among swarms
                 if (
-                    worker.swarm_id != "localhost"
+                    "cluster" not in self.params["pool_scope"]
+                    and worker.swarm_id != "localhost"
                     and worker.swarm_id not in picked_worker.id
                 ):
                     continue
